@@ -220,8 +220,13 @@ class Ref:
         else:
             disp = a.get("group_display", "none")
             if disp == "none":
-                raise Unsupported("AirTouch 4 ability without group display bitmap")
-            zs = [k for k, c in enumerate(disp) if c == "1"]
+                # consoles before the bitmap was introduced: the AC's groups are start .. start + count - 1
+                if len(self.ability) == 1:
+                    zs = sorted(self.names)          # a lone AC of such a console owns every named group, whatever its start / count say (O14)
+                else:
+                    zs = range(int(a["start_group"]), int(a["start_group"]) + int(a["group_count"]))
+            else:
+                zs = [k for k, c in enumerate(disp) if c == "1"]
         return [z for z in zs if z in self.names]
 
     def all_zones(self):
